@@ -9,6 +9,12 @@ theorem have_mem_set {wk : List WPc} {i : Nat} {x : WPc} {m : Msg} (hx : x.hand 
   · subst h; simp [WPc.hand] at hx
   · exact h
 
+theorem deadCount_set_ge (s s2 : State) (i : Nat) (p x : WPc) (hi : s.wk[i]? = some p) (hp : p.deadN = 0)
+    (hwk : s2.wk = s.wk.set i x) : deadCount s ≤ deadCount s2 := by
+  have h2 := sum_map_set WPc.deadN s.wk i p x hi
+  simp only [deadCount, hwk]
+  omega
+
 /-- A worker changes its program counter between two states in which it holds nothing. -/
 theorem inv_wk_nohand (h : Inv c s) (i : Nat) (p x : WPc) (hi : s.wk[i]? = some p) (hp : p.hand = none)
     (hpd : p ≠ .dead) (hx : x.hand = none)
@@ -41,6 +47,13 @@ theorem inv_wk_nohand (h : Inv c s) (i : Nat) (p x : WPc) (hi : s.wk[i]? = some 
     have h3 : p.deadN = 0 := by cases p <;> simp [WPc.deadN] at hpd ⊢
     simp only [deadCount] at h1 ⊢
     omega
+  case fin =>
+    intro hp
+    rcases h.fin hp with hd | hd
+    · exact Or.inl (Nat.lt_of_lt_of_le hd (deadCount_set_ge s _ i _ _ hi (by cases p <;> simp [WPc.deadN] at hpd ⊢) rfl))
+    · exact Or.inr hd
+  case rtDead => intro hp; exact Nat.lt_of_lt_of_le (h.rtDead hp) (deadCount_set_ge s _ i _ _ hi (by cases p <;> simp [WPc.deadN] at hpd ⊢) rfl)
+  case deadSeen => intro hp; exact Nat.lt_of_lt_of_le (h.deadSeen hp) (deadCount_set_ge s _ i _ _ hi (by cases p <;> simp [WPc.deadN] at hpd ⊢) rfl)
   case rawWk => intro m hm; exact h.rawWk m (have_mem_set hx hm)
 
 theorem inv_wGet (h : Inv c s) (i : Nat) (m : Msg) (rest : List Msg) (hi : s.wk[i]? = some .get)
@@ -83,6 +96,13 @@ theorem inv_wGet (h : Inv c s) (i : Nat) (m : Msg) (rest : List Msg) (hi : s.wk[
     have := h.inqSorted
     simp only [hq, idxs_cons, List.pairwise_cons] at this
     exact this.2
+  case fin =>
+    intro hp
+    rcases h.fin hp with hd | hd
+    · exact Or.inl (Nat.lt_of_lt_of_le hd (deadCount_set_ge s _ i _ _ hi rfl rfl))
+    · exact Or.inr hd
+  case rtDead => intro hp; exact Nat.lt_of_lt_of_le (h.rtDead hp) (deadCount_set_ge s _ i _ _ hi rfl rfl)
+  case deadSeen => intro hp; exact Nat.lt_of_lt_of_le (h.deadSeen hp) (deadCount_set_ge s _ i _ _ hi rfl rfl)
 
 theorem inv_wPut (h : Inv c s) (i : Nat) (m : Msg) (hi : s.wk[i]? = some (.have m)) :
     Inv c { s with mid := s.mid ++ [⟨apply c m.pay, m.idx⟩], wk := s.wk.set i .top } := by
@@ -120,6 +140,13 @@ theorem inv_wPut (h : Inv c s) (i : Nat) (m : Msg) (hi : s.wk[i]? = some (.have 
     rcases List.mem_append.mp hx with hx | hx
     · exact h.outMid x hx
     · simp at hx; subst hx; simp [outAt, hraw]
+  case fin =>
+    intro hp
+    rcases h.fin hp with hd | hd
+    · exact Or.inl (Nat.lt_of_lt_of_le hd (deadCount_set_ge s _ i _ _ hi rfl rfl))
+    · exact Or.inr hd
+  case rtDead => intro hp; exact Nat.lt_of_lt_of_le (h.rtDead hp) (deadCount_set_ge s _ i _ _ hi rfl rfl)
+  case deadSeen => intro hp; exact Nat.lt_of_lt_of_le (h.deadSeen hp) (deadCount_set_ge s _ i _ _ hi rfl rfl)
 
 theorem inv_wDie_have (h : Inv c s) (i : Nat) (m : Msg) (hi : s.wk[i]? = some (.have m)) :
     Inv c { s with wk := s.wk.set i .dead, lost := m.idx :: s.lost } := by
@@ -151,6 +178,13 @@ theorem inv_wDie_have (h : Inv c s) (i : Nat) (m : Msg) (hi : s.wk[i]? = some (.
     simp only [WPc.deadN] at h2
     omega
   case rawWk => intro x hx; exact h.rawWk x (have_mem_set (by simp [WPc.hand]) hx)
+  case fin =>
+    intro hp
+    rcases h.fin hp with hd | hd
+    · exact Or.inl (Nat.lt_of_lt_of_le hd (deadCount_set_ge s _ i _ _ hi rfl rfl))
+    · exact Or.inr hd
+  case rtDead => intro hp; exact Nat.lt_of_lt_of_le (h.rtDead hp) (deadCount_set_ge s _ i _ _ hi rfl rfl)
+  case deadSeen => intro hp; exact Nat.lt_of_lt_of_le (h.deadSeen hp) (deadCount_set_ge s _ i _ _ hi rfl rfl)
 
 theorem inv_stepW (h : Inv c s) {a : Action} (hs : stepW c s a = some s') : Inv c s' := by
   cases a <;> try (simp [stepW] at hs; done)
